@@ -22,7 +22,7 @@ deriving Repr, DecidableEq
 
 abbrev Input := List Rune
 
-def isWs (c : Nat) : Bool := c == 9 || c == 10 || c == 13 || c == 32
+def isWs (c : Nat) : Bool := c == 9 || c == 10 || c == 11 || c == 12 || c == 13 || c == 32
 def isDecimal (c : Nat) : Bool := 48 ≤ c && c ≤ 57
 def lower (c : Nat) : Nat := c ||| 32
 def isHex (c : Nat) : Bool := isDecimal c || (97 ≤ lower c && lower c ≤ 102)
